@@ -81,6 +81,30 @@ def check(nodes, flat):
     return None, None
 
 
+DEEP = [([[(0, 0), (0, 0), (0, 30000)], [(30000, 0), (30000, 30000), (30000, 30000)]], 0.0004),
+        ([[(0, 0), (0, 0), (250000, 100000)], [(300000, 0), (50000, 100000), (50000, 100000)]], 0.004)]
+
+
+def deep_check(nodes, flat):
+    """deep subdivision (13+ consecutive halvings of one piece; seed C10-17 capped the depth at 12): flatness of every piece, judged in
+    exact rational arithmetic on the returned floats; the restriction clauses are left to check() on the shallow cases"""
+    work = Capped([[list(map(float, pt)) for pt in nd] for nd in nodes])
+    work.cap = 60000
+    try:
+        pu.subdivideCubicPath(work, flat)
+    except OverflowError as e:
+        return str(e), 'terminates'
+    except Exception as e:   # noqa
+        return f'raised {type(e).__name__}: {e}', 'no exception'
+    lim = F(flat) ** 2 * (1 + F(1, 10 ** 6))
+    for k in range(1, len(work)):
+        got = [tuple(map(F, work[k - 1][1])), tuple(map(F, work[k - 1][2])), tuple(map(F, work[k][0])), tuple(map(F, work[k][1]))]
+        for c in (1, 2):
+            if d2(got[c], got[0], got[3]) >= lim:
+                return f'piece {k} of {len(work) - 1} not flat: control point {tuple(map(float, got[c]))} chord {tuple(map(float, got[0]))}..{tuple(map(float, got[3]))}', f'< {flat}'
+    return None, None
+
+
 def search(payload):
     rnd = random.Random(payload.get('seed', 0))
     fixed = [([[(0, 0), (0, 0), (2, -1)], [(10, 0), (8, -4), (8, -4)]], 3), ([[(1, 1)] * 3, [(1, 1)] * 3], 0.5),
@@ -112,4 +136,10 @@ def search(payload):
         if o:
             return {'found': True, 'input': [nodes, flat], 'observed': o, 'expected': e, 'tried': tried}
         distinct += 1
-    return {'found': False, 'tried': tried, 'distinct': distinct, 'bound': '9 fixed + 450 seeded random node lists (1..4 nodes, integer control points in [-8,8], flat in {0.05,0.3,1,4}; two nearly flat curves with flat 3e-5 and 2e-7), growth cap 20000 nodes'}
+    for nodes, flat in DEEP:
+        tried += 1
+        o, e = deep_check(nodes, flat)
+        if o:
+            return {'found': True, 'input': [nodes, flat], 'observed': o, 'expected': e, 'tried': tried}
+        distinct += 1
+    return {'found': False, 'tried': tried, 'distinct': distinct, 'bound': '2 deep curves (13-14 consecutive halvings, flatness clause only) + 9 fixed + 450 seeded random node lists (1..4 nodes, integer control points in [-8,8], flat in {0.05,0.3,1,4}; two nearly flat curves with flat 3e-5 and 2e-7), growth cap 20000 nodes'}
